@@ -60,7 +60,8 @@ Definition built_names (p : profile) (levels : list (string * Z)) : list string 
 
 (* ------------------------------------------------------------------------------------------------ table checks *)
 Definition other_level_vars : list string := ["combat_orders_level"; "passive_skill_level"].
-Definition other_ok (x : var) (f : formula) : bool := const_in x (f_expr f) || mono x (f_expr f).
+(* no damage formula mentions these two reference variables directly (they act through the effective level only) *)
+Definition other_ok (x : var) (f : formula) : bool := const_in x (f_expr f).
 Definition damage_ok (f : formula) : bool :=
   negb (f_damage f) || (range_ok f && level_ok level_var f && forallb (fun x => other_ok x f) other_level_vars).
 Fixpoint ids_from (n : nat) (l : list formula) : bool :=
@@ -79,12 +80,24 @@ Definition step_scale_ok (st : step) : bool :=
   | SH _ => true
   | SS inc => Qle_bool (-100) (sget "final_damage_multiplier" inc) && Qle_bool (sget "ignored_defence" inc) 100
   end.
+(* formula fid is at most `bound` on its whole level range (only for formulas in the level variable alone) *)
+Definition bounded_above (fid : nat) (bound : Q) : bool :=
+  match nth_error formulas fid with
+  | Some f => only_var level_var (f_expr f)
+              && forallb (fun l => match eval (at_level no_env level_var l) (f_expr f) with Some v => Qle_bool v bound | None => false end)
+                         (zspan (f_lo f) (f_hi f + 1))
+  | None => false
+  end.
+(* base entries of a stat block: final_damage_multiplier a constant >= -100, ignored_defence <= 100, formulas are damage formulas *)
 Definition base_const_ok (kb : string * base) : bool :=
   match snd kb with
   | BC q => if String.eqb (fst kb) "final_damage_multiplier" then Qle_bool (-100) q
             else if String.eqb (fst kb) "ignored_defence" then Qle_bool q 100 else true
-  | BF fid => fid_damage fid
+  | BF fid => fid_damage fid && negb (String.eqb (fst kb) "final_damage_multiplier")
+              && (if String.eqb (fst kb) "ignored_defence" then bounded_above fid 100 else true)
   end.
+Definition block_ok (b : sblock) : bool :=
+  forallb step_scale_ok (b_steps b) && forallb base_const_ok (b_base b) && nodupb (map fst (b_base b)).
 
 (* the corners of the documented configuration space of a profile: every formula of the profile's groups stays inside its hull *)
 Definition corner_cfg (p : profile) (lv off : Z) : config := mkCfg (skill_levels_of p lv lv lv) off off 0 0 [].
@@ -99,3 +112,15 @@ Definition fixed_hull_ok (f : formula) : bool :=
 
 Definition replacement_names_ok (p : profile) : bool :=
   forallb (fun pr => mem (fst pr) (p_components p) && mem (snd pr) (p_components p)) (p_mastery p).
+
+Definition fig_fids (g : figure) : list nat :=
+  (match g_base g with BF fid => [fid] | BC _ => [] end)
+  ++ flat_map (fun o => match o with PAddF fid => [fid] | _ => [] end) (g_post g).
+Definition blk_fids (b : sblock) : list nat :=
+  flat_map (fun kb => match snd kb with BF fid => [fid] | BC _ => [] end) (b_base b).
+Definition fid_used (p : profile) (fid : nat) : bool := match nth_error formulas fid with Some f => uses p f | None => false end.
+Definition profile_of (job : string) : option profile := find (fun p => String.eqb (p_job p) job) profiles.
+Definition figure_scoped (g : figure) : bool :=
+  match profile_of (g_job g) with Some p => forallb (fid_used p) (fig_fids g) | None => false end.
+Definition block_scoped (b : sblock) : bool :=
+  match profile_of (b_job b) with Some p => forallb (fid_used p) (blk_fids b) | None => false end.
